@@ -15,6 +15,9 @@
     exc is <err> <target>           => true|false        (errors.Is)
     exc pis <err> <target>          => true|false|notpe  ((*ProtocolException).Is called directly)
     exc as <err> te|pe|ae|fe|wr|tx  => found <unwrap steps> <kind> <tid|-> <texthex> | notfound   (errors.As)
+    exc string <err>                => name=<Name> t=<n> m=<hex> tid=<TypeId()> msg=<hex Msg()> raw=<hex of String()|na> | nostring
+        String() parsed back by the harness (name before '(', decimal type id, strconv.Unquote of the rest);
+        raw only for ASCII messages (the model of %q covers ASCII)
   `nil` is accepted as <err>/<target> of prepend, wrap, is, pis (outside C18's domain: verdict na).
 -/
 import Verif.Base.DrvLoop
@@ -101,6 +104,14 @@ def excModelNil (args : List String) : String :=
 def excModel (args : List String) : String :=
   if args.contains "nil" then excModelNil args else
   match args with
+  | ["exc", "string", e] =>
+    match parseErr e with
+    | some e =>
+      match e.tm with
+      | some (t, m) =>
+        s!"name=ApplicationException t={t} m={toHex m} tid={t} msg={toHex m} raw={if isAscii m then toHex (appString t m) else "na"}"
+      | none => "nostring"
+    | none => "bad-op"
   | ["exc", "as", e, tg] =>
     match parseErr e, parseAsTarget tg with
     | some e, some tg =>
@@ -155,6 +166,18 @@ def excVerdict (args : List String) (impl : String) : String :=
   | _ =>
   match args with
   | ["exc", "text", _] => "na"
+  | ["exc", "string", e] =>
+    match parseErr e with
+    | some e =>
+      if e.tm.isNone then "na" else
+      let fld (key : String) : Option String :=
+        (toks.find? (fun t => t.startsWith (key ++ "="))).map (fun t => (t.drop (key.length + 1)).toString)
+      -- what String() shows must be what TypeId()/Msg() say; the name only for an ApplicationException proper
+      if fld "t" != fld "tid" || (fld "t").isNone then "bad:C18:string"
+      else if fld "m" != fld "msg" || (fld "m").isNone then "bad:C18:string"
+      else if e.kind == .application && fld "name" != some "ApplicationException" then "bad:C18:string"
+      else "ok"
+    | none => "na"
   | ["exc", "prepend", p, e] =>
     match parseHex p, parseErr e, toks with
     | some p, some e, [k, tid, tx, orig, _cause] =>
